@@ -31,3 +31,13 @@ package keys
 //@ assumed
 //@ pure
 //@ ensures fresh(result)
+
+// C18, signature verification: only a signature of exactly the fixed length is ever handed to the
+// curve check; anything longer or shorter is rejected outright.
+//@ prop C18
+//@ func (*PublicKey).Verify
+//@ may-panic
+//@ opt frame off
+//@ requires p != nil
+//@ ensures[len] len(signature) != SignatureLen ==> !result
+//@ call ecdsa::Verify requires[len] len(signature) == SignatureLen
